@@ -301,7 +301,7 @@ class ReducedDensityMatrixPropagator(MatrixData, Saveable):
         #
         #
         #######################################################################
-        if self.has_relaxation:
+        if self.has_RTensor:
 
             ###################################################################
             #
@@ -463,11 +463,16 @@ class ReducedDensityMatrixPropagator(MatrixData, Saveable):
             
         #######################################################################
         #
-        #    PROPAGATIONS WITHOUT RELAXATION
+        #    PROPAGATIONS WITHOUT RELAXATION TENSOR
         #
         #
         #######################################################################
         else:
+
+            if (self.has_PDeph and self.has_Trdip 
+                and (self.has_Efield or self.has_EField)):
+                raise Exception("Pure dephasing with an external field "+
+                                "requires a relaxation tensor.")
 
             if (self.has_Efield and self.has_Trdip):   
 
@@ -516,7 +521,8 @@ class ReducedDensityMatrixPropagator(MatrixData, Saveable):
         """Short expansion of an exponention to integrate equations of motion
         
         
-        Propagation with Hamiltonian only
+        Propagation with Hamiltonian only (and pure dephasing, if it was
+        submitted without a relaxation tensor)
         
         
         """
@@ -527,10 +533,18 @@ class ReducedDensityMatrixPropagator(MatrixData, Saveable):
         
         HH = self._INIT_RWA()
         
+        if self.has_PDeph:
+            self._BOOT_DEPH()
+        
         indx = 1
         for ii in self.TimeAxis.data[1:self.Nt]:
             
+            # time at the beginning of the step
+            tNt = self.TimeAxis.data[indx-1]
+            
             for jj in range(0,self.Nref):
+                
+                tt = tNt + jj*self.dt  # time right now
                 
                 for ll in range(1,L+1):
                    
@@ -538,6 +552,10 @@ class ReducedDensityMatrixPropagator(MatrixData, Saveable):
                                  has_NonHerm=self.has_NonHerm)
                              
                     rho2 = rho2 + rho1
+                    
+                if self.has_PDeph:
+                    rho2 = self._APPLY_DEPH(tt, rho2)
+                    
                 rho1 = rho2    
                 
             pr.data[indx,:,:] = rho2                        
